@@ -35,6 +35,7 @@ func propC04(w *World, r *Report) {
 	checkRoundingBase(w, r)
 	checkWidthDict(w, r)
 	checkStemOpEmit(w, r)
+	RunNumberExact(w, r)
 }
 
 // ---- endchar
